@@ -4,14 +4,17 @@
    FULL STATEMENT (not a theorem - refuted below):
      forall c, spec_ok c (model_obs c) = true
    i.e. for every dataset and every algebra term the top-down evaluator returns
-   the bottom-up multiset.  The faithful model violates it in ten syntactically
-   delimited regions (Sparql/Findings.v, kf c <> 0); what is proved so far is the
-   agreement on basic graph patterns for every pattern order and every incoming
-   context, the compositional steps for UNION and VALUES, and the whole statement
-   on the join-free fragment.  The agreement on the complement of the trigger
-   region (forall c, kf c = 0 -> ...) is supported by the correspondence runs
-   only. *)
-From RV Require Import Sparql.Proofs.
+   the bottom-up multiset.  The faithful model violates it in eleven syntactically
+   delimited regions (Sparql/Findings.v, kf c <> 0).  Proved: the push-down theorem
+   eval_td ctx P =perm= [mu + ctx | mu in eval_bu P, mu compatible with ctx]
+   for every context on the fragment {BGP, Join (lazy and hash), Union, Graph,
+   Values, Filter over error-free expressions whose variables its group binds}
+   under side conditions that are the negations of the trigger predicates of
+   findings 3 and 11 (C04_pushdown), and the tie theorem on that fragment
+   (C04_spec_ok_model_partial).  For LeftJoin / Minus / Extend / sub-SELECT the
+   agreement outside the trigger regions is supported by the correspondence
+   runs only. *)
+From RV Require Import Sparql.Tie.
 
 (* the top-down BGP evaluation under ANY context, for ANY order of the triple
    patterns (the static reorderTriples, the run-time sort of evalPart), is a
@@ -42,15 +45,59 @@ Theorem C04_values : forall ds g c rows,
 Proof. exact td_values. Qed.
 Print Assumptions C04_values.
 
-(* model and checker agree on the join-free fragment {BGP, UNION, GRAPH ?g,
-   projection}, for SELECT, ASK and CONSTRUCT, every dataset *)
-Theorem C04_main_partial : forall c, in_frag0 c = true -> spec_ok c (model_obs c) = true.
-Proof. exact main_frag0. Qed.
-Print Assumptions C04_main_partial.
+(* C04_bgp, second half: the extensions of a context are the context-compatible
+   bottom-up solutions merged with it (list for list) *)
+Theorem C04_bgp_pushdown : forall g c ts,
+  sol_wf c = true -> bgp_ext g c ts = join_ctx c (bgp_ext g [] ts).
+Proof. exact bgp_pushdown. Qed.
+Print Assumptions C04_bgp_pushdown.
 
-Theorem C04_fragment_untriggered_partial : forall p, frag0 p = true -> forall names inex, scan names inex [] p = 0%N.
-Proof. exact scan_frag0. Qed.
-Print Assumptions C04_fragment_untriggered_partial.
+(* C04_join: evalLazyJoin (push the left solution into the right operand, merge)
+   and the hash join of evalJoin are the algebra's Join under the compatibility
+   restriction; the set() of the hash join is harmless on duplicate-free lists *)
+Theorem C04_join_lazy : forall c L1 L2,
+  sol_wf c = true -> all_wf L1 -> all_wf L2 ->
+  flat_map (fun a => map (fun b => merge b a) (join_ctx (thaw c a) L2)) (join_ctx c L1)
+  = join_ctx c (join_lists L1 L2).
+Proof. exact lazy_join_lists. Qed.
+Print Assumptions C04_join_lazy.
+
+Theorem C04_join_hash : forall c L1 L2,
+  sol_wf c = true -> all_wf L1 -> all_wf L2 ->
+  join_lists (join_ctx c L1) (join_ctx c L2) = join_ctx c (join_lists L1 L2).
+Proof. exact hash_join_lists. Qed.
+Print Assumptions C04_join_hash.
+
+Theorem C04_join_hash_set : forall L, NoDup L -> dedup L = L.
+Proof. exact dedup_NoDup. Qed.
+Print Assumptions C04_join_hash_set.
+
+(* the syntactic duplicate-freeness analysis behind the trigger of F-C04-3 is sound *)
+Theorem C04_df_sound : forall ds p, shape p = true -> df p = true -> graphs_nodup ds ->
+  forall g, NoDup g -> NoDup (eval_bu ds g p).
+Proof. exact df_sound. Qed.
+Print Assumptions C04_df_sound.
+
+(* C04_pushdown: on the fragment [frag] - BGP, Join (lazy; hash when [hash_ok],
+   the negation of the trigger of F-C04-3), Union, Values, Graph (when the name
+   is a graph of the dataset / the variable cannot be bound from outside, or the
+   pattern needs a triple: the negation of the trigger of F-C04-11), Filter over
+   error-free expressions whose variables the filter's own group certainly binds
+   and rdflib's _vars lists - for EVERY incoming context whose variables are among
+   [pushed]: top-down = bottom-up restricted to the context *)
+Theorem C04_pushdown : forall ds, graphs_nodup ds ->
+  forall p pushed, frag (map fst (ds_named ds)) pushed p = true ->
+  forall g c, NoDup g -> sol_wf c = true -> dom_in c pushed ->
+  Permutation (eval_td ds g c p) (join_ctx c (eval_bu ds g p)).
+Proof. exact pushdown. Qed.
+Print Assumptions C04_pushdown.
+
+(* the tie theorem on that fragment (SELECT, SELECT DISTINCT, ASK, CONSTRUCT):
+   the checker accepts the model's observation *)
+Theorem C04_spec_ok_model_partial : forall c,
+  case_wf c = true -> in_frag c = true -> spec_ok c (model_obs c) = true.
+Proof. exact spec_ok_model_frag. Qed.
+Print Assumptions C04_spec_ok_model_partial.
 
 (* Prop-level readings of the checker *)
 Theorem C04_spec_select : forall c rows,
@@ -76,7 +123,16 @@ Proof. exact findings_refuted. Qed.
 Print Assumptions C04_refuted.
 
 Local Open Scope N_scope.
-Definition nv_case := W (Project (Union (BGP [(Vr 1, Tm 4, Vr 2)]) (BGP [(Vr 2, Tm 4, Vr 1)])) [1; 2]) [(1, 4, 2)].
+Definition nv_case :=
+  W (Project (Join false (Join true (BGP [(Vr 1, Tm 4, Vr 2)]) (Union (BGP [(Vr 2, Tm 4, Vr 3)]) (BGP [(Vr 3, Tm 4, Vr 2)])))
+                   (Filter false (Some [2; 4]) (ENot (ECmp OpEq (EVar 4) (ECon 1))) (BGP [(Vr 2, Tm 4, Vr 4)])))
+             [1; 2; 3; 4])
+    [(1, 4, 2); (2, 4, 3); (3, 4, 2)].
 Example C04_nonvacuous :
-  in_frag0 nv_case = true /\ model_obs nv_case = RSel [[(1, 1); (2, 2)]; [(1, 2); (2, 1)]].
-Proof. split; vm_compute; reflexivity. Qed.
+  case_wf nv_case = true /\ in_frag nv_case = true
+  /\ model_obs nv_case = RSel
+    [[(1, 1); (2, 2); (3, 3); (4, 3)]; [(1, 1); (2, 2); (3, 1); (4, 3)];
+     [(1, 1); (2, 2); (3, 3); (4, 3)]; [(1, 2); (2, 3); (3, 2); (4, 2)];
+     [(1, 2); (2, 3); (3, 2); (4, 2)]; [(1, 3); (2, 2); (3, 3); (4, 3)];
+     [(1, 3); (2, 2); (3, 1); (4, 3)]; [(1, 3); (2, 2); (3, 3); (4, 3)]].
+Proof. repeat split; vm_compute; reflexivity. Qed.
